@@ -29,7 +29,9 @@ MODS = {
     "avx2": "transpose::avx2",
     "fpre": "mpc::fpre",
     "file_or_mem_buf": "utils::file_or_mem_buf",
+    "state": "state",
 }
+PACKAGES = {"state": "polytune-server-core"}
 
 ALL = {}
 
@@ -37,6 +39,8 @@ ALL = {}
 def H(mod, name, **kw):
     sub = kw.pop("sub", None)
     d = dict(name=name, full=f"{MODS[mod]}::__verif::{sub + '::' if sub else ''}{name}", mod=mod, tier="quick", timeout=900)
+    if mod in PACKAGES:
+        d["package"] = PACKAGES[mod]
     d.update(kw)
     ALL[name] = d
     return d
@@ -263,6 +267,39 @@ def hs(*names):
     return [ALL[n] for n in names]
 
 
+# C14 / C16 (partial): polytune-server-core state machine, decision points cut from the async handlers
+SC = "crates/polytune-server-core/src/state.rs"
+RS = "std::collections::hash_map::RandomState::new -> fixed keys via #[kani::stub] (getrandom is a syscall; all maps stay empty)"
+ANS = "ret_err(ret, e) / ret.send(Ok(())) replaced by recorders of (reply-channel kind, error variant) - the oneshot senders stay real; sending for real drags the drop glue of Box<dyn Error> (every Error impl) into CBMC"
+ENVST = "`self` is an EnvState carrying the real PolicyStateKind<C>; init_channel / insert_consts / check_consts (tokio mpsc queues, Garble constants) are call recorders"
+H("state", "c14_msg_unknown_sender_is_an_error", needs_segment=["sc_msg_head"],
+  what="msg(): a sender index >= number of channel endpoints is answered with an error before the forwarding send, no panic, ControlFlow::Continue; a known index reaches the send", bounds="0..=3 endpoints, any usize sender index", functions=["state::PolicyState::msg (statements before the first .await)"], panic_prop="C14")
+H("state", "c14_msg_before_schedule_is_an_error", needs_segment=["sc_msg_head"],
+  what="msg() before any schedule (no endpoints): every sender index is answered with an error, machine keeps running", bounds="0 endpoints, any usize sender index", functions=["state::PolicyState::msg (statements before the first .await)"], panic_prop="C14")
+H("state", "c14_schedule_duplicate_while_executing", needs_segment=["sc_schedule"],
+  what="schedule() while Executing, as leader and as follower: InvalidState error, state kept, init_channel NOT called (endpoints of the running computation untouched), Continue, no second validation round", bounds="party < 3, leader/follower symbolic, state Executing", functions=["state::PolicyState::schedule (after the type check: endpoint creation, leader head up to the first RPC, follower branch)"], panic_prop="C14", stubs=[RS], est_gb=2)
+H("state", "c14_schedule_first_is_accepted", needs_segment=["sc_schedule"],
+  what="counterpart: the first schedule in Init creates the endpoints once; follower -> AwaitingValidation unanswered; leader proceeds to validation", bounds="party < 3, leader/follower symbolic, state Init", functions=["state::PolicyState::schedule (same segment)"], panic_prop="C14", stubs=[RS], est_gb=3)
+H("state", "c14_validate_while_executing", needs_segment=["sc_validate"],
+  what="validate() while Executing: InvalidState error, state kept, Continue", bounds="any leader index in the request", functions=["state::PolicyState::validate (whole body)"], panic_prop="C14", stubs=[RS], est_gb=2)
+H("state", "c14_validate_duplicate_while_pending", needs_segment=["sc_validate"],
+  what="a second validate while the first is pending (ValidateRequested): error for the second caller only, the pending one stays unanswered, state kept", bounds="any leader index in the request", functions=["state::PolicyState::validate (whole body)"], panic_prop="C14", stubs=[RS], est_gb=2)
+H("state", "c14_consts_before_schedule", needs_segment=["sc_consts"],
+  what="consts() in Init: InvalidState error, nothing inserted, state kept, Continue", bounds="any sender index", functions=["state::PolicyState::consts (whole body; check_consts().await -> recorder)"], panic_prop="C14", stubs=[RS], est_gb=2)
+H("state", "c14_consts_before_validation", needs_segment=["sc_consts"],
+  what="consts() in ValidateRequested: InvalidState error, nothing inserted, pending validate unanswered, state kept", bounds="any sender index", functions=["state::PolicyState::consts (whole body)"], panic_prop="C14", stubs=[RS], est_gb=2)
+H("state", "c14_consts_while_executing", needs_segment=["sc_consts"],
+  what="consts() while Executing: InvalidState error, nothing inserted, state kept", bounds="any sender index", functions=["state::PolicyState::consts (whole body)"], panic_prop="C14", stubs=[RS], est_gb=2)
+H("state", "c16_validate_same_program", needs_segment=["sc_validate"],
+  what="validate() against a scheduled follower policy, same program hash: leader equal -> Ok for both callers + Validated; leader different -> LeaderMismatch error, schedule never answered Ok, Break", bounds="leader indices < 3 symbolic on both sides", functions=["state::PolicyState::validate (whole body)"], panic_prop="C16", stubs=[RS], est_gb=3)
+H("state", "c16_validate_other_program", needs_segment=["sc_validate"],
+  what="same with a different program hash: always refused (hash or leader error), schedule never answered Ok, Break", bounds="leader indices < 3 symbolic; hashes 'a' vs 'b'", functions=["state::PolicyState::validate (whole body)"], panic_prop="C16", stubs=[RS, "Policy::program_hash (BLAKE3) -> one of two one-byte strings"], est_gb=3)
+H("state", "c16_schedule_after_validate_same_program", needs_segment=["sc_schedule"],
+  what="other arrival order (validate first, then the follower's schedule), same hash: leader equal -> Ok for both + Validated + endpoints created once; different -> LeaderMismatch for both callers, Break", bounds="leader indices < 3 symbolic on both sides", functions=["state::PolicyState::schedule (follower branch)"], panic_prop="C16", stubs=[RS], est_gb=2)
+H("state", "c16_schedule_after_validate_other_program", needs_segment=["sc_schedule"],
+  what="same with a different program hash: validate caller gets an error, schedule caller never Ok, Break", bounds="leader indices < 3 symbolic; hashes 'a' vs 'b'", functions=["state::PolicyState::schedule (follower branch)"], panic_prop="C16", stubs=[RS, "Policy::program_hash (BLAKE3) -> one of two one-byte strings"], est_gb=3)
+
+
 def by_prefix(*prefixes, tier=None):
     return [h for n, h in ALL.items() if any(n.startswith(p) for p in prefixes) and (tier is None or h["tier"] == tier)]
 
@@ -416,12 +453,30 @@ PROPS["C20"] = dict(
 
 # ---------------------------------------------------------------------------------------------
 # Properties not claimed, with the one-line reason (DESIGN.md §3).
+PROPS["C14"] = dict(
+    level="model_checking",
+    level_text="Bounded model checking of the decision points of the server-core state machine at which a stray command is judged: msg() up to its forwarding send, schedule() after the type check, validate() and consts() - the statement runs are cut out of the async handlers on every run and executed on the real PolicyStateKind for the states a test cannot pin down (Init, ValidateRequested, Executing): the command is answered with an InvalidState / Unreachable error, the state and the MPC channel endpoints are left as they are, and the handler returns Continue without panicking.",
+    level_note="Partial: one command against one state (inductive step), states Init / ValidateRequested / Executing. Not covered: run()'s fallback arm (its other arms contain async closures the cut cannot avoid), states that hold a Garble TypedProgram beyond the empty program, the HTTP route, and that the computation's OUTPUT is unchanged (a whole-run statement; the check shows state, endpoints and control flow are unchanged). " + SEG,
+    explanation="Kani/CBMC on statement runs cut from state.rs (msg, schedule, validate, consts).",
+    outside="states Validated/SendingConsts/SendingConstsCompleted/Running as pre-state; interleavings of several commands; run().",
+    assumptions=[FMT, TRACING, RS, ANS, ENVST],
+    harnesses=by_prefix("c14_"),
+    segments=["sc_msg_head", "sc_schedule", "sc_validate", "sc_consts"],
+)
+PROPS["C16"] = dict(
+    level="model_checking",
+    level_text="Bounded model checking of the two places where a follower compares the leader's validate request with its own policy (validate() in AwaitingValidation, schedule() in ValidateRequested - both arrival orders), cut from the async handlers on every run: with a different leader or program hash the leader's validate call gets an error, the follower's schedule call is never answered Ok and the handler returns Break (the state machine ends before run/consts/MPC traffic can start); with equal leader and hash both calls get Ok exactly once and the policy is Validated.",
+    level_note="Partial: the follower-side comparison for both arrival orders. Not covered: the leader's reaction to the failed validate RPC (awaits an async closure), the ill-typed-program refusal (Garble type checker), the absence of MPC messages as a whole-run statement, n>3. " + SEG,
+    explanation="Kani/CBMC on statement runs cut from state.rs (validate, schedule).",
+    outside="program hash modelled as two distinct one-byte strings; leader indices < 3.",
+    assumptions=[FMT, TRACING, RS, ANS, ENVST, "Policy::program_hash() (BLAKE3, cpuid dispatch) replaced by a harness-chosen string; the comparison is the subject"],
+    harnesses=by_prefix("c16_"),
+    segments=["sc_schedule", "sc_validate"],
+)
 NOT_APPLICABLE = {
     "C12": "a property of interleavings of several parties' futures; Kani has no concurrency model and the join/scatter layer alone exhausts memory",
-    "C13": "polytune-server-core is a tokio actor (mpsc/oneshot/Notify/Semaphore, spawn, Garble compiler); Kani models neither tokio's channels in feasible size nor any interleaving",
-    "C14": "same actor code; the handlers cannot be executed symbolically (tokio send().await on both paths)",
-    "C15": "same actor code; cancellation races are interleavings of tokio tasks",
-    "C16": "same actor code; needs the Garble compiler and RPC delivery orders",
-    "C17": "same actor code; semaphore permits across tokio tasks and failure injection into RPCs",
+    "C13": "a statement about all interleavings of several tokio actors (mpsc/oneshot/Notify/Semaphore, spawn, Garble compiler) ending in one correct result each; Kani has no concurrency model, tokio mpsc cannot even be created under it (futex), and the single-handler decision points that can be cut (see C14, C16) do not add up to this liveness/result claim",
+    "C15": "cancellation races are interleavings of the actor with the spawned MPC task over tokio::sync::Notify; no single-handler statement run decides them",
+    "C17": "semaphore permits held across tokio tasks and failure injection into awaited RPCs inside async closures; tokio Semaphore/mpsc cannot be created under Kani (futex)",
     "C19": "the file variant is tempfile + BufWriter/BufReader over one shared OS file offset with seek in Drop; Kani has no file-system model",
 }
